@@ -1,15 +1,16 @@
 #!/bin/bash
 # usage: refcheck.sh <dir with rK.diff>  — applies each behaviour-preserving refactoring to /repo, runs every check, reverts.
+D=$(realpath "$1")
 cd /verif
-for patch in "$1"/r*.diff; do
+for patch in "$D"/r*.diff "$D"/patch.diff "$D"/*/patch.diff; do
   [ -f "$patch" ] || continue
   cd /repo
   if [ -n "$(git status --porcelain --untracked-files=no)" ]; then echo "/repo not clean"; exit 2; fi
-  if ! git apply "$patch" 2>/dev/null; then echo "== $(basename $patch): does not apply"; continue; fi
+  if ! git apply "$patch" 2>/dev/null; then echo "== $patch: does not apply"; continue; fi
   cd /verif
   out=$(VERIF_NOWRITE=1 bin/seqverif -n -property all -repo /repo -verif /verif 2>&1)
   git -C /repo checkout -- . ; git -C /repo clean -fdq -- . 2>/dev/null
   n=$(echo "$out" | grep -cE "^\s+(VIOLATED|UNDECIDED)")
-  echo "== $(basename $patch): $n report(s)"
+  echo "== $patch: $n report(s)"
   echo "$out" | grep -E "^\s+(VIOLATED|UNDECIDED)" -A2 | grep -v "rule:" | cut -c1-330
 done
